@@ -46,9 +46,9 @@ def expected_dims(ds):
     if "locs" in cfg:
         ids &= set(cfg["locs"])
     if "lat" in cfg or "lon" in cfg:
-        lat = cfg.get("lat", [-90, 90])
-        lon = cfg.get("lon", [-180, 180])
-        ids = {x for x in ids if any(lat[0] <= s[1] <= lat[1] and lon[0] <= s[2] <= lon[1] for s in meta[x])}
+        lat = cfg.get("lat")        # a range constrains only when it is given
+        lon = cfg.get("lon")
+        ids = {x for x in ids if any((lat is None or lat[0] <= s[1] <= lat[1]) and (lon is None or lon[0] <= s[2] <= lon[1]) for s in meta[x])}
     if "elev" in cfg:
         e = cfg["elev"]
         ids = {x for x in ids if any(e[0] <= s[3] <= e[1] for s in meta[x])}
@@ -82,8 +82,7 @@ def _explore(out, tier, seed, facts, replay):
                 out.violation("construction-exception", "Data(...) raised %s" % impl[1], ds)
             elif et and el and es and not ("dates" in ds["cfg"] or "tods" in ds["cfg"]):
                 # an error exit although the documented selection is not empty
-                lat_given = "lat" in ds["cfg"] or "lon" in ds["cfg"] or "elev" in ds["cfg"]
-                if not lat_given:
+                if impl[1] != 2 or "elev" not in ds["cfg"]:
                     out.violation("spurious-error-exit", "error exit %r but the selection is non-empty: %r" % (impl, (et, el, es)), ds)
             continue
         (it, il, isx), _ = impl
@@ -139,6 +138,47 @@ def _explore(out, tier, seed, facts, replay):
             pass
         except Exception as e:
             out.violation("construction-exception", "Data(...) raised %r with a NaN elevation" % e, ds)
+    # the same options from the command line (non-integer values included): the rows of `-type csv` are exactly the selected entries
+    import os
+    import shutil
+    import tempfile
+    from p_c13 import run_cli
+    tmpc = tempfile.mkdtemp(prefix="vfc03_")
+    try:
+        leads_c = [0.0, 1.5, 3.0, 6.0, 7.25]
+        locs_c = [(1, 60.0, 10.0, 100.0), (7, 59.5, -120.0, 250.5), (18, -33.5, 151.25, 12.0), (55, 45.0, 200.5, 30.0)]
+        fnc = os.path.join(tmpc, "cli.txt")
+        with open(fnc, "w") as f_:
+            f_.write("unixtime leadtime location lat lon altitude obs fcst\n")
+            for t_ in (1325376000, 1325462400):
+                for l_ in leads_c:
+                    for (i_, la_, lo_, el_) in locs_c:
+                        f_.write("%d %g %d %g %g %g %g %g\n" % (t_, l_, i_, la_, lo_, el_, rng.randint(0, 20) / 2.0, rng.randint(0, 20) / 2.0))
+        cases_c = [(["-o", "1.5,6"], "leadtime", [1.5, 6.0]), (["-o", "7.25"], "leadtime", [7.25]), (["-o", "0:1.5:3"], "leadtime", [0.0, 1.5, 3.0]),
+                   (["-o", "0.5"], "leadtime", None), (["-o", "1"], "leadtime", None),
+                   (["-l", "7,18"], "location", [7.0, 18.0]), (["-lx", "7"], "location", [1.0, 18.0, 55.0]),
+                   (["-latrange", "59.5,60"], "location", [1.0, 7.0]), (["-latrange", "44.5,45.5"], "location", [55.0]),
+                   (["-lonrange", "151.25,200.5"], "location", [18.0, 55.0]), (["-elevrange", "12,100"], "location", [1.0, 18.0, 55.0]),
+                   (["-elevrange", "250.25,250.75"], "location", [7.0]), (["-latrange", "59.5,60", "-lonrange", "9.5,10"], "location", [1.0])]
+        for opts_c, ax_c, want_c in cases_c:
+            foc = os.path.join(tmpc, "o.csv")
+            if os.path.exists(foc):
+                os.remove(foc)
+            argv_c = ["verif", fnc, "-m", "mae", "-x", ax_c, "-type", "csv", "-f", foc] + opts_c
+            r_c = run_cli(argv_c)
+            nf += 1
+            if r_c[0] == "exception":
+                out.violation("cli-exception", "verif %s raised %s" % (" ".join(argv_c[2:]), r_c[1]), {"argv": argv_c, "file": open(fnc).read()})
+                continue
+            got_c = None
+            if r_c[0] == "ok" and os.path.exists(foc):
+                rows_c = [ln.split(",") for ln in open(foc).read().strip().split("\n")[1:]]
+                got_c = [float(r_[0]) for r_ in rows_c if r_[1].strip() != "nan"]
+            if got_c != want_c and not (want_c is None and not got_c):
+                out.violation("cli-selection:%s" % opts_c[0], "verif -m mae -x %s %s verifies the entries %r, the option selects %r" % (ax_c, " ".join(opts_c), got_c, want_c),
+                              {"argv": argv_c, "file": open(fnc).read()})
+    finally:
+        shutil.rmtree(tmpc, ignore_errors=True)
     stats.update({
         "evaluations": stats["datasets"] + stats["requests"] + nf,
         "distinct_nontrivial": len(distinct),
